@@ -108,6 +108,35 @@ class W(Base17):
 IP.register(V)       # V provides IP virtually
 IQ.register(W)
 
+# branching universe: a source with three outgoing non-terminal offers
+class BS(Base17):
+    pass
+
+
+class BA(Base17):
+    pass
+
+
+class BB(Base17):
+    pass
+
+
+class BC(Base17):
+    pass
+
+
+class BX(Base17):
+    pass
+
+
+class BT(Base17):
+    pass
+
+
+BRANCH_EDGES = [(BS, BA), (BS, BB), (BS, BC), (BA, BX), (BB, BX), (BX, BT),
+                (BC, BT), (BA, BB)]
+
+
 UNIVERSES = {
     "linear": {"types": [S0, S1, S2, X, Y, T], "sources": [S2, S1, X],
                "targets": [T, X, S0]},
@@ -401,8 +430,53 @@ def trait_checks(ctx, uni, offers, src_type, target):
         set_global_adaptation_manager(old)
 
 
+def late_registration(ctx):
+    """a protocol is registered for a class (ABC.register) *after* a first,
+    negative query: the answer must follow the registration"""
+    for rounds in range(3):
+        ctx.ev()
+        ctx.tr()
+        IR = abc.ABCMeta("IR%d" % rounds, (), {})
+        R = type("R%d" % rounds, (Base17,), {})
+        mgr = AdaptationManager()
+        obj = R()
+        first = mgr.adapt(obj, IR, None)
+        sup0 = mgr.supports_protocol(obj, IR)
+        IR.register(R)
+        second = AdaptationManager().adapt(obj, IR, None)
+        third = mgr.adapt(obj, IR, None)
+        if first is not None or sup0:
+            ctx.violation("C17:late-registration:before", "object adapted "
+                          "to a protocol it does not provide",
+                          universe="late", offers=[], source="R", target="IR")
+        elif second is not obj or third is not obj or \
+                not mgr.supports_protocol(obj, IR):
+            ctx.violation("C17:late-registration:stale", "after "
+                          "IR.register(R) adapt(obj, IR) gives %r / %r "
+                          "instead of the object itself" % (second, third),
+                          universe="late", offers=[], source="R", target="IR")
+        else:
+            ctx.outcome("self-provides")
+
+
+def branch_universe(ctx, chunk, of):
+    """all ordered selections of up to 5 distinct edges of a branching offer
+    graph (adapter factories only)"""
+    n = 0
+    for k in range(1, 6):
+        for sel in itertools.permutations(BRANCH_EDGES, k):
+            n += 1
+            if n % of != chunk:
+                continue
+            offers = tuple((f, g, "adapter") for f, g in sel)
+            ctx.case({"universe": "branch", "offers": [
+                (f.__name__, g.__name__, kk) for f, g, kk in offers]})
+            check(ctx, "branch", offers, BS, BT)
+
+
 def shards(tier):
-    out = []
+    out = [{"universe": "late"}]
+    out += [{"universe": "branch", "chunk": i, "of": 8} for i in range(8)]
     for uni in UNIVERSES:
         offs = all_offers(uni)
         for i in range(len(offs)):
@@ -412,6 +486,14 @@ def shards(tier):
 
 def run_shard(ctx, shard, tier):
     uni = shard["universe"]
+    if uni == "late":
+        late_registration(ctx)
+        ctx.depth_completed = 1
+        return
+    if uni == "branch":
+        branch_universe(ctx, shard["chunk"], shard["of"])
+        ctx.depth_completed = 5
+        return
     offs = all_offers(uni)
     U = UNIVERSES[uni]
     maxn = {"linear": 3, "diamond": 2, "abc": 2, "falsy": 2}[uni]
@@ -453,7 +535,12 @@ def replay(rec):
     from mc.ctx import Ctx
     ctx = Ctx("C17", None, "quick", 0)
     names = {c.__name__: c for c in (S0, S1, S2, X, Y, T, Z, D0, D1, D2, D3,
-                                     IP, IQ, V, W)}
+                                     IP, IQ, V, W, BS, BA, BB, BC, BX, BT)}
+    if rec.get("universe") == "late":
+        late_registration(ctx)
+        for v in ctx.violations.values():
+            print("  violation:", v["sig"], v["msg"])
+        return not ctx.violations
     offers = tuple((names[f], names[g], k) for f, g, k in rec["offers"])
     check(ctx, rec["universe"], offers, names[rec["source"]],
           names[rec["target"]])
